@@ -426,6 +426,36 @@ LOOKAHEAD_ONLY = {
 }
 
 
+def wrap_rule(P, chk):
+    """LineWrapStr::fmt writes, for every line of the content, the prefix exactly as given and then the line"""
+    key = "<okane_core::syntax::display::LineWrapStr as std::fmt::Display>::fmt"
+    b = P.body(key)
+    chk.analysed(b)
+    nd = [(bb, t) for bb, t in b.calls() if short(callee_def(t)) == "new_display"]
+    chk.floor("format arguments in LineWrapStr::fmt", len(nd), 2)
+    pre = cont = 0
+    bad = []
+    for bb, t in nd:
+        cs = q.chains(b, t["args"][0])
+        for cn, r in cs:
+            names = [short(n) for n in cn]
+            if q.is_param(r, "self", ("prefix",)):
+                if names:
+                    bad.append("the prefix goes through %s before it is written" % names)
+                pre += 1
+            elif q.is_param(r, "self", ("content",)):
+                if set(names) - {"lines", "next", "into_iter", "split_terminator", "split"}:
+                    bad.append("the text goes through %s" % names)
+                cont += 1
+            else:
+                bad.append("writes %s" % mir.show_root(r))
+    loops = b.loops()
+    in_loop = all(any(bb in blks for blks in loops.values()) for bb, t in nd)
+    chk.require(not bad and pre >= 1 and cont >= 1 and in_loop, R_PREFIX, "LineWrapStr::fmt|every line = prefix as given + line", b.loc(),
+                "; ".join(bad) or "prefix / line not both written inside the line loop (prefix=%d, line=%d)" % (pre, cont),
+                "for line in content.lines() { writeln!(f, \"{}{}\", self.prefix, line) }")
+
+
 def eof_rule(P, chk):
     bare = ("winnow::ascii::line_ending", "winnow::ascii::newline", "winnow::ascii::crlf")
     users = {}
@@ -488,4 +518,5 @@ def run(P, chk, tier):
     printer_rule(P, chk)
     parser_rules(P, chk)
     prefix_agreement(P, chk)
+    wrap_rule(P, chk)
     eof_rule(P, chk)
